@@ -129,8 +129,14 @@ class World(DuoWorld):
         self.topics = ["com.secret.topic", "com.public.topic"]
         self.procs = ["com.secret.proc", "com.public.proc"]
         self.sub_ids, self.reg_ids = {}, {}
+        # a second handler on the same subscription, and handlers that work on what they were handed in place (sorting a
+        # list, popping from a dict): every handler is owed the originator's payload, not what an earlier one left of it
+        cfg["two_handlers"] = False if flip else ch.flag("two-handlers-per-topic", 0.3)
+        cfg["mutating_handlers"] = cfg["two_handlers"] and ch.flag("handlers-modify-their-arguments-in-place", 0.6)
+        self.n_handlers = 2 if cfg["two_handlers"] else 1
         for i, t in enumerate(self.topics):
-            self.call(resp.subscribe, self.make_handler(t), t)
+            for j in range(self.n_handlers):
+                self.call(resp.subscribe, self.make_handler(t), t)
         from autobahn.wamp.types import RegisterOptions
         for i, p in enumerate(self.procs):
             self.call(resp.register, self.make_endpoint(p), p, options=RegisterOptions(details_arg="details"))
@@ -139,8 +145,8 @@ class World(DuoWorld):
         for m in list(self.r.inbox[self.r.cursor:]):
             n += 1
             if isinstance(m, message.Subscribe):
-                self.sub_ids[m.topic] = n
-                self.deliver_to(self.r, message.Subscribed(m.request, n))
+                self.sub_ids.setdefault(m.topic, n)
+                self.deliver_to(self.r, message.Subscribed(m.request, self.sub_ids[m.topic]))
             elif isinstance(m, message.Register):
                 self.reg_ids[m.procedure] = n
                 self.deliver_to(self.r, message.Registered(m.request, n))
@@ -156,6 +162,12 @@ class World(DuoWorld):
         def handler(*a, **k):
             self.handler_calls.append((topic, tuple(jsonish(list(a))), jsonish(k)))
             self.run.log("handler", topic, len(a))
+            if self.cfg.get("mutating_handlers"):
+                for x in list(a) + list(k.values()):
+                    if isinstance(x, list):
+                        x.append("touched-by-an-earlier-handler")
+                    elif isinstance(x, dict):
+                        x.clear()
         return handler
 
     def make_endpoint(self, proc):
@@ -293,6 +305,9 @@ class World(DuoWorld):
             op.reply = "error-bare"
         op.args = [op.tok, 42]
         op.kwargs = {"k": "KW-" + op.tok}
+        if not flip and ch.flag("nested-payload", 0.4):
+            op.args = [op.tok, 42, {"items": ["N-" + op.tok, 1]}]
+            op.kwargs = {"k": "KW-" + op.tok, "more": ["M-" + op.tok]}
         op.tamper = {}
         if flip:
             op.tamper[direction] = ("flip", self.mode[2])
@@ -460,6 +475,8 @@ class World(DuoWorld):
                 op.tampered = getattr(op, "tampered", []) + [(direction, tampered)]
         n_h, n_e = len(self.handler_calls), len(self.endpoint_calls)
         op._n_prog = len(getattr(op, "progress_seen", None) or [])
+        if direction == "event":
+            op.event_encrypted = bool(getattr(msg, "enc_algo", None))
         err = self.deliver_to(side, msg)
         self.settle()
         if direction == "invocation":
@@ -499,7 +516,12 @@ class World(DuoWorld):
                 else:
                     run.probe("tampered-event-dropped")
             else:
-                if len(new_h) != 1 or new_h[0] != (op.uri, exp_args, exp_kwargs):
+                want = [(op.uri, exp_args, exp_kwargs)] * self.n_handlers
+                if self.cfg.get("mutating_handlers") and not op.event_encrypted:
+                    # (an event that travelled in clear is one set of objects for all handlers - outside this property:
+                    # the first handler is judged)
+                    want, new_h = want[:1], new_h[:1]
+                if new_h != want:
                     run.violate("C20.exact-or-nothing", "event-payload-differs-or-missing", repr(new_h)[:200])
                 else:
                     run.probe("event-recovered")
